@@ -70,7 +70,7 @@ func (r *cacheInvalidator) invalidateLocationHeaders(
 		if loc == "" {
 			continue
 		}
-		locURL, err := url.Parse(loc)
+		locURL, err := url.Parse(escapeNonURIBytes(loc))
 		if err != nil {
 			continue
 		}
@@ -118,4 +118,26 @@ func resolveReference(base, ref *url.URL) *url.URL {
 		}
 	}
 	return &t
+}
+
+// escapeNonURIBytes percent-encodes the bytes of a reference that cannot occur
+// in a URI at all (space, controls, non-ASCII, and "<>\^`{|}) and leaves
+// everything else as it is written. Servers do put UTF-8 or a space into
+// Location; [url.Parse] accepts such a value but then re-encodes the whole
+// path by its own rules, which also escape "!'()*" and turn "%2F" into a
+// slash: the key derived from it was not the key of the URI the field names.
+func escapeNonURIBytes(s string) string {
+	const upperhex = "0123456789ABCDEF"
+	var b strings.Builder
+	for i := 0; i < len(s); i++ {
+		c := s[i]
+		if c <= 0x20 || c >= 0x7f || strings.IndexByte("\"<>\\^`{|}", c) >= 0 {
+			b.WriteByte('%')
+			b.WriteByte(upperhex[c>>4])
+			b.WriteByte(upperhex[c&15])
+		} else {
+			b.WriteByte(c)
+		}
+	}
+	return b.String()
 }
